@@ -60,8 +60,8 @@ class LiteIdentityKeyStore(IdentityKeyStore):
     def saveIdentity(self, recipientId, identityKey):
         q = "DELETE FROM identities WHERE recipient_id=?"
         self.dbConn.cursor().execute(q, (recipientId,))
-        self.dbConn.commit()
-
+        # no commit here: delete and insert form one transaction, so that a crash in between
+        # cannot lose the pinned identity
 
         q = "INSERT INTO identities (recipient_id, public_key) VALUES(?, ?)"
         c = self.dbConn.cursor()
